@@ -210,7 +210,12 @@ class CompilerError(Exception):
 
     def __str__(self):
         if self.node:
-            return f"Compiler error at line {self.node.lineno}:{self.node.col_offset}: {super().__str__()}\n  {self.node.lineno:>6} | {self.node.as_string()}\n"
+            try:
+                source = self.node.as_string()
+            except Exception:
+                # e.g. an integer literal beyond the int -> str conversion limit
+                source = "..."
+            return f"Compiler error at line {self.node.lineno}:{self.node.col_offset}: {super().__str__()}\n  {self.node.lineno:>6} | {source}\n"
         return super().__str__()
 
 
